@@ -14,6 +14,9 @@ structure CSub where
   params : List (String × CT)
   ret : CT
   body : List CStmt
+  -- register operands the routine takes BY REFERENCE (`const HexOp *RxV`), as operand variables (`Rx_op`): the
+  -- routine's own `RxV` names the operand slot handed over by the caller
+  refs : List String := []
 deriving Repr, Inhabited
 
 abbrev CSubEnv := List (String × CSub)
@@ -48,6 +51,20 @@ def voidCallC (name : String) (exts : List String) (vs : List Val) (σ : MState)
   | "set_usr_field", [_, fld], [v] => writeUsr σ fld v
   | "trap", [], [_, _] => .ok σ
   | _, _, _ => .error (.undef name)
+
+/-- C-side meaning of the value calls that are read at the level of their specification (TRUSTED; the IL side reads
+    them the same way, `ILSem.lean`: `getUsrFieldIL`, `HEX_GET_NPC`):
+    `get_usr_field(bundle, FIELD)` is the 32-bit content of the abstract cell of the field (what this instruction wrote
+    to it, else its value before the instruction); `get_npc(pkt)` is the address behind the packet, taken as the packet
+    address + 4. -/
+def specCallC (name : String) (exts : List String) (σ : MState) : Option Val :=
+  match name, exts with
+  | "get_usr_field", [_, fld] => some (.bv 32 (usrVal σ fld))
+  | "get_npc", [_] => some (.bv 32 (BitVec.ofNat 32 (σ.pktAddr + 4)))
+  | _, _ => none
+
+/-- the pass-through tokens of a call that hand a register operand over by reference (operand variables) -/
+def refArgs (exts : List String) : List String := exts.filter (fun x => x.endsWith "_op")
 
 mutual
 /-- Effectful expression evaluation (fuel bounds calls into generated routines). -/
@@ -175,6 +192,29 @@ def evalCH (ms : MacroSem) (subs : CSubEnv) : Nat → MState → CExpr → Excep
         let (vs, σ) ← evalCHArgs ms subs fuel σ args params
         let σ ← voidCallC name exts vs σ
         evalCH ms subs fuel σ val
+    | .callx name exts args ret params => do
+        let (vs, σ) ← evalCHArgs ms subs fuel σ args params
+        match specCallC name exts σ with
+        | some v => .ok (v, σ)
+        | none =>
+          match lookupS name subs with
+          | some sub =>
+              -- by-reference operands: the routine's body names the operand slot by its OWN parameter (`RxV`), so the
+              -- call is given a meaning only when the caller hands over the operand of that very name (then the
+              -- routine's reads and writes of `RxV` are reads and writes of the caller's slot: `new`/`written` come back)
+              if refArgs exts != sub.refs then .error (.undef "by-reference operand handed over under another name")
+              else
+                let σc : MState := { σ with locals := (sub.params.map (·.1)).zip vs }
+                let σr ← execCHs ms subs fuel sub.body σc
+                match lookupS "$ret" σr.locals with
+                | some v => .ok (v, { σ with mem := σr.mem, stores := σr.stores, new := σr.new, written := σr.written })
+                | none => .error (.undef "routine without return value")
+          | none => .error (.undef name)
+    | .xmacro name exts _ =>
+        -- an uninterpreted function of its (payload-free) pass-through arguments, shared with the IL side
+        match ms name (exts.map (fun _ => Val.ext)) with
+        | some v => .ok (v, σ)
+        | none => .error (.undef name)
 def evalCHArgs (ms : MacroSem) (subs : CSubEnv) : Nat → MState → List CExpr → List CT → Except Stuck (List Val × MState)
   | 0, _, _, _ => .error .fuel
   | _+1, σ, [], _ => .ok ([], σ)
